@@ -161,6 +161,10 @@ def run():
         for ref in ('?', '#', '?#', 'g?', 'g#', '/g?#', '?#s', '?y#'):
             H.ev(key=(base, ref), sample=dict(base=base, ref=ref), part='empty_query_fragment_refs')
             check_nav(H, base, ref, loose=True)
+        # a '?' or '/' inside the fragment belongs to the fragment (the reference has no query / path of its own)
+        for ref in ('#sec?2', '#a/b?c', 'g#x?y', '#?', '#/'):
+            H.ev(key=(base, ref), sample=dict(base=base, ref=ref), part='fragment_with_delimiters')
+            check_nav(H, base, ref)
 
     # 2. references with their own scheme and host replace the base entirely
     absolute = ['https://x', 'https://x/', 'https://x/p/q?k=v#f', 'http://a/zz', 'ftp://u@x:2121/p', 'https://x?k',
